@@ -19,6 +19,13 @@ fn ex(b: u32) -> Approx {
 
 fn close(a: &Approx, got: u32) -> bool {
     let g = f32::from_bits(got);
+    // not-a-number and infinite expectations are exact: the same operation on the same operands
+    if a.v.is_nan() {
+        return g.is_nan();
+    }
+    if a.v.is_infinite() {
+        return g as f64 == a.v;
+    }
     if !a.usable() {
         return true;
     }
@@ -547,7 +554,7 @@ pub fn execute(plan: &Plan, ctx: &mut Ctx) {
                 let ok = match rd_cmd(&snaps[k].rd_c) {
                     Some((t, kd, b)) => {
                         let g = f32::from_bits(b) as f64;
-                        t == tstar && kd == kind && ((g - val).abs() <= 8.0 * (hops as f64 + 1.0) * 1.2e-7 * val.abs().max(g.abs()) + (hops as f64 + 1.0) * SUBNORMAL_SLACK || !val.is_finite() || !g.is_finite())
+                        t == tstar && kd == kind && ((g - val).abs() <= 8.0 * (hops as f64 + 1.0) * 1.2e-7 * val.abs().max(g.abs()) + 2e-45 * 100f64.powi(hops as i32 + 1) || !val.is_finite() || !g.is_finite())
                     }
                     None => false,
                 };
@@ -949,6 +956,9 @@ fn check_update(
                                         viol2(ctx, &["C03", "C13"], "relay_time", comp, format!("op {}: terminal {} (local {}) reads a command stamped {} but the newest readable one is stamped {}", i, k, l, gt, tstar));
                                     } else if gk != kind {
                                         viol2(ctx, &["C13"], "relay_kind", comp, format!("op {}: terminal {} (local {}) reads kind {} but the newest command has kind {}", i, k, l, gk, kind));
+                                    } else if l != j && matches!(creads[l], Some((t, _, _)) if t == tstar) {
+                                        // this terminal already held an agreeing copy with the same stamp
+                                        // (checked above, in either direction): nothing to relay to it
                                     } else if want.is_finite() && !(g.is_finite() && (g - want).abs() <= 2e-6 * want.abs().max(g.abs()) + SUBNORMAL_SLACK) {
                                         viol2(ctx, &["C13"], "relay_value", comp, format!("op {}: terminal {} (local {}) reads {:e}; the newest command {:e} at local {} maps to {:e}", i, k, l, g, v, j, want));
                                     }
